@@ -123,7 +123,7 @@ def error_provenance(ctx):
         "SynParseError": [], "InvalidSubstitute": [], "SettingsValidation": [],
     }
     for v in variants:
-        where = sorted({cshort(b["path"]) for b, n in sites.get(v, [])})
+        where = sorted({cshort(o) for b, n in sites.get(v, []) for o in q.owners(ctx, b["path"], ("scale_typegen",))})      # a private helper constructs on behalf of its callers
         exp = expected_fn.get(v)
         if exp is None:
             ctx.bad("C10.1", "error-site/" + v, "", "new TypegenError variant `%s` without a reviewed provenance (constructed in %s)" % (v, where))
